@@ -193,12 +193,21 @@ def find_width(defn, name):
     return None
 
 
+KNOWN_KEY_IDS = sorted(set(v[0] for v in ubc.UBX_CONFIG_DATABASE.values()))
+
+
 def unknown_key(rng):
     """an undocumented key id with a valid size code in its top hex digit"""
     known = set(v[0] for v in ubc.UBX_CONFIG_DATABASE.values())
     while True:
-        code = rng.choice([1, 2, 3, 4, 5])
-        k = (code << 28) | rng.getrandbits(28)
+        if rng.random() < 0.4:
+            # a neighbour of a documented key: one or two bits away (reserved bits, group, item), same size code
+            k = rng.choice(KNOWN_KEY_IDS) ^ (1 << rng.randrange(28))
+            if rng.random() < 0.3:
+                k ^= 1 << rng.randrange(28)
+        else:
+            code = rng.choice([1, 2, 3, 4, 5])
+            k = (code << 28) | rng.getrandbits(28)
         if k not in known:
             return k
 
